@@ -777,11 +777,18 @@ func (g *generator) convertFragmentSpread(
 		return nil, nil
 	}
 
-	typ, ok := g.typeMap[fragmentSpread.Name]
-	if !ok {
+	// Look up the fragment's type, checking (as for any other type) that a type
+	// of this name, if there is one, really is the one for this fragment and
+	// not, say, a field's type given the same name by a typename option.
+	typ, err := g.getType(
+		fragmentSpread.Name, fragmentSpread.Definition.TypeCondition,
+		fragmentSpread.Definition.SelectionSet, fragmentSpread.Position)
+	if err != nil {
+		return nil, err
+	}
+	if typ == nil {
 		// If we haven't yet, convert the fragment itself.  Note that fragments
 		// aren't allowed to have cycles, so this won't recurse forever.
-		var err error
 		typ, err = g.convertNamedFragment(fragmentSpread.Definition)
 		if err != nil {
 			return nil, err
@@ -812,6 +819,21 @@ func (g *generator) convertFragmentSpread(
 	// TODO(benkraft): Set directive here if we ever allow @genqlient
 	// directives on fragment-spreads.
 	return &goStructField{GoName: "" /* i.e. embedded */, GoType: typ}, nil
+}
+
+// addFragmentType registers a type generated for a named fragment, refusing to
+// overwrite another type that already has the name.
+func (g *generator) addFragmentType(name string, typ goType, pos *ast.Position) error {
+	if _, ok := g.typeMap[name]; ok {
+		return errorf(
+			pos, "conflicting definition for %s; this can indicate either "+
+				"a genqlient internal error, a conflict between user-specified "+
+				"type-names, or some very tricksy GraphQL field/type names: "+
+				"the name is also needed for the type of a named fragment",
+			name)
+	}
+	g.typeMap[name] = typ
+	return nil
 }
 
 // convertNamedFragment converts a single GraphQL named fragment-definition
@@ -858,7 +880,9 @@ func (g *generator) convertNamedFragment(fragment *ast.FragmentDefinition) (goTy
 			descriptionInfo: desc,
 			Generator:       g,
 		}
-		g.typeMap[fragment.Name] = goType
+		if err := g.addFragmentType(fragment.Name, goType, fragment.Position); err != nil {
+			return nil, err
+		}
 		return goType, nil
 	case ast.Interface, ast.Union:
 		implementationTypes := g.schema.GetPossibleTypes(typ)
@@ -871,7 +895,9 @@ func (g *generator) convertNamedFragment(fragment *ast.FragmentDefinition) (goTy
 			Selection:       fragment.SelectionSet,
 			descriptionInfo: desc,
 		}
-		g.typeMap[fragment.Name] = goType
+		if err := g.addFragmentType(fragment.Name, goType, fragment.Position); err != nil {
+			return nil, err
+		}
 
 		for i, implDef := range implementationTypes {
 			implFields, err := g.convertSelectionSet(
@@ -891,7 +917,9 @@ func (g *generator) convertNamedFragment(fragment *ast.FragmentDefinition) (goTy
 				Generator:       g,
 			}
 			goType.Implementations[i] = implTyp
-			g.typeMap[implTyp.GoName] = implTyp
+			if err := g.addFragmentType(implTyp.GoName, implTyp, fragment.Position); err != nil {
+				return nil, err
+			}
 		}
 
 		return goType, nil
